@@ -310,7 +310,7 @@ fn run(prefix: u8, segs: &[IgsSeg], alive: &[usize], rep: &Reporter) -> Run {
         let at = if cur.get() == usize::MAX { out.times.last().map(|t| t.0).unwrap_or(usize::MAX) } else { cur.get() };
         let what = if cur.get() == usize::MAX { "reading the canvas after" } else { "executing" };
         let fam = if at < segs.len() { family(&segs[at]) } else { "the set-up".to_string() };
-        out.panic = Some((at, Fail { key: sig, msg: format!("{msg} (while {what} {fam})") }));
+        out.panic = Some((at, Fail { key: crate::common::normalise_panic_key(&sig), msg: format!("{msg} (while {what} {fam})") }));
     }
     out
 }
